@@ -96,3 +96,33 @@ func H_C11_no_repetition_no_regions() {
 	}
 	vReach("end")
 }
+
+// H_C11_running_page_numbers_are_removed: running page numbers - bare or decorated - at the same marginal position on
+// every page are removed from every page, and only they.
+//
+//symgo:harness prop=C11 kernel=K3-running-page-numbers
+//symgo:desc 4 pages, each with a body fragment and a footer-band fragment at a fixed position holding the page's number written (enumerated) bare ("3"), as "Page 3", "- 3 -", "[3]", "-3-" or "Confidential - Page 3"; body text purely numeric on one page (enumerated): Detect + FilterFragments remove the number fragment from every page and keep every body fragment
+func H_C11_running_page_numbers_are_removed() {
+	style := vAnyIntIn(0, 5)
+	numericBody := vAnyIntIn(0, 1) == 1
+	var pages []PageFragments
+	for p := 0; p < 4; p++ {
+		n := string(rune('1' + p))
+		label := []string{n, "Page " + n, "- " + n + " -", "[" + n + "]", "-" + n + "-", "Confidential - Page " + n}[style]
+		body := "Body paragraph of page " + string(rune('a'+p))
+		if numericBody && p == 1 {
+			body = "2024"
+		}
+		pages = append(pages, PageFragments{PageIndex: p, PageHeight: 792, PageWidth: 612, Fragments: []text.TextFragment{
+			{Text: body, X: 72, Y: 400, Width: 300, Height: 10, FontSize: 10},
+			{Text: label, X: 290, Y: 30, Width: 40, Height: 10, FontSize: 10},
+		}})
+	}
+	res := NewHeaderFooterDetector().Detect(pages)
+	vAssert("detected", res != nil)
+	for p := 0; p < 4; p++ {
+		out := res.FilterFragments(p, pages[p].Fragments, 792)
+		vAssert("body-kept-number-removed", len(out) == 1 && out[0].Y == 400)
+	}
+	vReach("end")
+}
